@@ -12,7 +12,7 @@ CONSTANTS
   RsvLast = TRUE
   MaxOps = 2
   MaxCrash = 0
-  MaxConf = 1
+  MaxConf = 0
   MaxTicks = 0
   MaxCaps = 0
   TickLen = 70
